@@ -5,7 +5,8 @@ CONSTANTS
  V = {1}
  MaxOps = 4
  KeepHist = TRUE
- SetMode = TRUE
+ MapOps = FALSE
+ SetOps = TRUE
 VIEW View
 ACTION_CONSTRAINT Emit
 INVARIANTS TypeOK NoOrphan SomeLive SetValues
